@@ -63,6 +63,35 @@ def parallel_connected(rng):
     return ("mk", [], cod, boxes, offsets)
 
 
+def spiral_spec(n, name="a"):
+    """The asymptotic worst case for normal_form (arXiv:1804.07832): connected, cubic trace."""
+    x = (name, 0)
+    def bx(nm, dom, cod):
+        return dict(kind="g", name=nm, dom=dom, cod=cod, dagger=False, data=None)
+    boxes, offsets = [bx("unit", [], [x])], [0]
+    for i in range(n):
+        boxes.append(bx("cap", [], [x, x])); offsets.append(i)
+    boxes.append(bx("counit", [x], [])); offsets.append(n)
+    for i in range(n):
+        boxes.append(bx("cup", [x, x], [])); offsets.append(n - i - 1)
+    return ("mk", [], [], boxes, offsets)
+
+
+def random_walk(rng, d, steps):
+    """Random legal adjacent exchanges (independent simulation), staying in the class."""
+    from discopy.monoidal import Diagram
+    for _ in range(steps):
+        n = len(d.boxes)
+        if n < 2:
+            break
+        i = rng.randrange(n - 1)
+        a, b = (i, i + 1) if rng.random() < 0.5 else (i + 1, i)
+        sim = simulate(d, a, b, rng.random() < 0.5)
+        if sim[0] == "ok":
+            d = Diagram(d.dom, d.cod, sim[1], sim[2])
+    return d
+
+
 def exchange_class(d, cap=250):
     """Closure of {d} under legal adjacent exchanges (both preferences), by the independent
     simulation of the exchange rule; diagrams rebuilt with the scanning public constructor."""
@@ -215,10 +244,49 @@ def run(tier, seed, replay=None):
                         rep.fail("connected_not_normalised", dict(expr=repr(e), left=left,
                                  member=repr(m)), "NotImplementedError in a connected class")
                         break
+                    except Exception as exc:
+                        rep.fail("normal_form_raises:" + err_class(exc), dict(expr=repr(e), left=left,
+                                 member=repr(m)), repr(exc)[:200])
+                        break
                 if len(nfs) > 1:
                     rep.fail("not_canonical", dict(expr=repr(e), left=left),
                              "%d distinct normal forms in one interchanger class" % len(nfs))
             rep.case("class " + tok_expr(e), len(cls) >= 2)
+        # ---- long traces: the spiral family (connected, worst case) and random members of its class
+        spirals = 0
+        for n in range(1, 5 if tier == "quick" else 7):
+            e = spiral_spec(n)
+            base = fam.run(e)
+            members = [base] + [random_walk(random.Random(rng.getrandbits(32)), base, 40)
+                                for _ in range(2 if tier == "quick" else 6)]
+            for left in (False, True):
+                nfs = set()
+                for idx, m in enumerate(members):
+                    case = dict(spiral=n, left=left, member=repr(m)[:300])
+                    try:
+                        steps = list(itertools.islice(monoidal.Diagram.normalize(m, left=left), 6000))
+                        nfs.add(monoidal.Diagram.normal_form(m, left=left))
+                    except NotImplementedError:
+                        rep.fail("connected_not_normalised", case,
+                                 "NotImplementedError on a member of the class of spiral(%d)" % n)
+                        continue
+                    except Exception as exc:
+                        rep.fail("normal_form_raises:" + err_class(exc), case, repr(exc)[:200])
+                        continue
+                    if idx == 0 and len(steps) < 1500:
+                        line = "rtrace %d %s %s" % (
+                            1 if left else 0, tok_expr(e),
+                            " ".join([str(len(steps))] + [tok_expr(spec_diagram(x)) for x in steps]))
+                        ans = drv.ask(line)
+                        if ans != "accepted terminal=1":
+                            rep.disagree("rtrace-spiral", case, "accepted terminal=1", ans)
+                        rep.case("spiral %d %s" % (n, left), True)
+                        rep.count("spiral_trace_len:%d" % len(steps))
+                    spirals += 1
+                if len(nfs) > 1:
+                    rep.fail("not_canonical", dict(spiral=n, left=left),
+                             "%d distinct normal forms in the class of spiral(%d)" % (len(nfs), n))
+        rep.extra["spiral_members_normalised"] = spirals
         rep.extra["interchanger_classes"] = dict(explored=explored, complete=exhaustive,
                                                  members=members,
                                                  note="support for the unproved clauses, not a theorem")
